@@ -21,7 +21,7 @@ P['C12'] = dict(
 P['C14'] = dict(
   design_ref='DESIGN.md section 3 C14',
   level_text='For every instance inside the bounds the solver shows on the real Transportation1d code: solve() returns without throwing a valid plan whose cost is minimal against an arbitrary symbolic competitor plan; assign() returns one in-range, positive-demand sink per source, agrees with the plan on unsplit sources, and violates no container contract (zero supplies/demands included); also after balanceDemand. Family A: positions symbolic (|v|<=1e8, unsorted, duplicates), quantities enumerated; family B: quantities symbolic, position patterns enumerated.',
-  text=dict(bounds=dict(quick='family A: <=2 sources x <=2 sinks, supplies/demands enumerated 0..2, 1 source x <=3 sinks with quantities 0..1, and 3 unit sources x 3 sinks given in non-decreasing order with demands 1..2 (no balancing), positions symbolic |v|<=1e8; family B: 2x2, positions enumerated 0..2, quantities symbolic 0..2^20',
+  text=dict(bounds=dict(quick='family A: <=2 sources x <=2 sinks, supplies/demands enumerated 0..2, 1 source x <=3 sinks with quantities 0..1, 3 unit sources x 3 sinks given in non-decreasing order with demands 1..2 (no balancing), and 2 sources x 4 sorted sinks with four tight quantity shapes, positions symbolic |v|<=1e8; family B: 2x2, positions enumerated 0..2, quantities symbolic 0..2^20',
                         thorough='family A: <=3x3, quantities 0..2; family B: <=3x2 positions 0..2 quantities symbolic'),
             outside='more than 3 sources or sinks; quantities above the enumerated range in family A; positions beyond 1e8'),
   assumptions=STD_ASSUME + ['precondition of the property: total supply <= total demand and at least one sink with positive demand', 'competitor plans are integral (sufficient: transportation polytope is integral)'],
@@ -30,6 +30,7 @@ P['C14'] = dict(
          thorough=dict(defines={'NS': 3, 'NK': 3})),
     dict(name='H14A3', src='C14_transport1d.cpp', covers=['precondition holds', 'end'], defines={'VCAP': 12, 'NS': 1, 'NK': 3, 'QMAX': 1, 'FAMILY_A': None}, cfg=dict(fp='exact')),
     dict(name='H14A33', src='C14_transport1d.cpp', covers=['precondition holds', 'end'], defines={'VCAP': 12, 'NS': 3, 'NK': 3, 'QMAX': 2, 'SMAX': 0, 'DMIN': 1, 'NOBALANCE': None, 'ONLYFULL': None, 'SORTEDSINKS': None, 'FAMILY_A': None}, cfg=dict(fp='exact'), split=3),
+    dict(name='H14A24', src='C14_transport1d.cpp', covers=['precondition holds', 'end'], defines={'VCAP': 12, 'NS': 2, 'NK': 4, 'QMAX': 3, 'SHAPES24': None, 'NOBALANCE': None, 'SORTEDSINKS': None, 'FAMILY_A': None}, cfg=dict(fp='exact'), split=3),
     dict(name='H14B', src='C14_transport1d.cpp', covers=['precondition holds', 'end'], defines={'VCAP': 12, 'NS': 2, 'NK': 2, 'PRANGE': 3, 'QLIM': 1048576, 'FAMILY_B': None}, cfg=dict(fp='exact'),
          thorough=dict(defines={'NS': 3, 'NK': 2})),
   ])
@@ -164,11 +165,12 @@ P['C05'] = dict(
 P['C04'] = dict(
   design_ref='DESIGN.md section 3 C04',
   level_text='(T) cellOrientationInRow / oppositeRowOrientation checked against the documented table for every polarity x orientation (symbolic, loop-free). (L) Circuit::legalize end to end (C01 harness restricted to polarity coverage: all 5 polarities, odd and even row counts, 4 row-orientation patterns): every placed cell has exactly the prescribed orientation, never INVALID, ANY cells keep theirs. (D) inductive step on DetailedPlacement (C02 harness): any accepted swap/insert leaves every cell with the prescribed, non-INVALID orientation.',
-  text=dict(bounds=dict(quick='T: all 50 inputs; L: 1 cell (one or two rows high, 5 polarities, symbolic width and x), 2 rows, 4 orientation patterns, y enumerated; D: 2 segments, 3 cells, cell 0 any polarity', thorough='L: 2 cells, 3 rows with gap, 5x5 polarities; D: 4 cells'),
+  text=dict(bounds=dict(quick='T: all 50 inputs; L: 1 cell (one or two rows high, 5 polarities, symbolic width and x), 2 rows, 4 orientation patterns, y enumerated; M: two two-row-high cells (widths 9 and 4), cell 0 ANY/SAME/OPPOSITE, 3 rows N/FS/N; D: 2 segments, 3 cells, cell 0 any polarity', thorough='L: 2 cells, 3 rows with gap, 5x5 polarities; D: 4 cells'),
             outside='as C01 / C02'),
   assumptions=STD_ASSUME + [BOOST_ASSUME, 'legalization processing order over-approximated (FP havoc)'],
   harnesses=[
     dict(name='H04T', src='C04_table.cpp', covers=['end'], defines={'VCAP': 4}, cfg=dict(fp='exact'), native_srcs=lib_except('parameters.cpp'), native_flags=['-llemon']),
+    dict(name='H04M', src='C01_legalize.cpp', covers=['legalize ended', 'legalize returned', 'end'], defines=dict(C01_BASE, YCHOICE=None, WCHOICE=None, TALLALL=2, NROWS=3, POLCHOICES=3, POL1CHOICES=1, ROWPATTERNS=1, VCAP=10), cfg=dict(fp='havoc', time_budget=60), split=3, ir_srcs=ALL_IR, native_srcs=ALL_IR, native_flags=['-llemon']),
     dict(name='H04L', src='C01_legalize.cpp', covers=['legalize ended', 'legalize returned', 'end'], defines=dict(C01_BASE, NC=1, YCHOICE=None, POL1CHOICES=1, ROWPATTERNS=4), cfg=dict(fp='havoc'), ir_srcs=ALL_IR, native_srcs=ALL_IR, native_flags=['-llemon'],
          thorough=dict(defines={'NC': 2, 'WCHOICE': None, 'POL1CHOICES': 5, 'NROWS': 3, 'GAPCHOICES': 2})),
     dict(name='H04D', src='C02_step.cpp', covers=['constructed', 'swapped', 'inserted', 'end'], defines={'VCAP': 8, 'NCELLS': 3}, cfg=dict(fp='havoc'), ir_srcs=ALL_IR, native_srcs=ALL_IR, native_flags=['-llemon'],
